@@ -17,7 +17,7 @@ from vf import common, htf, progs
 
 PID = 'C09'
 TS_MODES = ['none', 'dut', 'lambda', 'raise']
-X_MODES = ['ok', 'fail', 'raise', 'hang', 'skip', 'plugfail', 'abort', 'reenter', 'setdut', 'cbreenter']
+X_MODES = ['ok', 'fail', 'raise', 'hang', 'skip', 'plugfail', 'abort', 'reenter', 'setdut', 'cbreenter', 'abort_runif']
 
 
 class CbBoom(Exception):
@@ -75,7 +75,17 @@ def build_test(state):
   def t(test):
     state['log'].append(('teardown_phase',))
 
-  test = h.Test(h.PhaseGroup(main=[x], teardown=[t]), test_name='c09test')
+  def y_run_if():
+    # an abort that arrives between two phases: issued (synchronously) while the executor decides whether to run y
+    if state['plan'][1] == 'abort_runif':
+      state['test'].abort_from_sig_int()
+    return True
+
+  @h.PhaseOptions(run_if=y_run_if)
+  def y(test):
+    state['log'].append(('y',))
+
+  test = h.Test(h.PhaseGroup(main=[x, y], teardown=[t]), test_name='c09test')
   state['test'] = test
   return test
 
@@ -101,7 +111,7 @@ def expected_outcome(plan):
   if tsm == 'raise':
     return 'ERROR'
   return {'ok': 'PASS', 'setdut': 'PASS', 'fail': 'FAIL', 'raise': 'ERROR', 'hang': 'TIMEOUT', 'skip': 'PASS',
-          'plugfail': 'ERROR', 'abort': 'ABORTED', 'reenter': 'PASS', 'cbreenter': 'PASS'}[xm]
+          'plugfail': 'ERROR', 'abort': 'ABORTED', 'reenter': 'PASS', 'cbreenter': 'PASS', 'abort_runif': 'ABORTED'}[xm]
 
 
 def check_record(rec, plan, state_at_cb):
@@ -281,7 +291,7 @@ def run(tier):
 
 def replay(art):
   r = art['replay']
-  if r.get('part') == 'schedules':
+  if r.get('part') in ('schedules', 'sigint'):
     from vf.harness import c09_sched  # pylint: disable=g-import-not-at-top
     return c09_sched.replay(r)
   v, outs = run_history([tuple(p) for p in r['hist']], tuple(r['raising']))
